@@ -67,6 +67,19 @@ class Env:
             return self.exprs[ast.unparse(e)]
         if isinstance(e, ast.Constant) and isinstance(e.value, str):
             return (coq_lit(e.value), "str")
+        if isinstance(e, ast.JoinedStr):
+            parts = []
+            for v in e.values:
+                if isinstance(v, ast.Constant) and isinstance(v.value, str):
+                    parts.append(coq_lit(v.value))
+                elif isinstance(v, ast.FormattedValue) and v.conversion == -1 and v.format_spec is None:
+                    key = "{" + ast.unparse(v.value) + "}"
+                    if key not in self.exprs:
+                        raise Unsupported("formatted value " + key)
+                    parts.append(self.exprs[key][0])
+                else:
+                    raise Unsupported("f-string part")
+            return ("(" + " ++ ".join(parts) + ")%list" if parts else "[]", "str")
         if isinstance(e, ast.UnaryOp) and isinstance(e.op, ast.USub) and isinstance(e.operand, ast.Constant) and isinstance(e.operand.value, int):
             return (f"(-{e.operand.value})", "lit")
         if isinstance(e, ast.Call) and isinstance(e.func, ast.Attribute) and not e.keywords:
@@ -145,6 +158,8 @@ class Env:
             raise Unsupported("subscript " + key)
         if isinstance(e, ast.BinOp) and type(e.op) in (ast.Add, ast.Sub, ast.Mult, ast.Div):
             (a, ta), (b, tb) = self.term(e.left), self.term(e.right)
+            if ta == "str" and tb == "str" and type(e.op) is ast.Add:
+                return (f"({a} ++ {b})%list", "str")
             op = {ast.Add: "+", ast.Sub: "-", ast.Mult: "*", ast.Div: "/"}[type(e.op)]
             if "Z" in (ta, tb):
                 if type(e.op) is ast.Div or not {ta, tb} <= {"Z", "lit"}:
@@ -202,6 +217,13 @@ class Env:
                     raise Unsupported("identity test other than with None")
                 t = f"(match {a} with Some _ => false | None => true end)"
                 return t if o is ast.Is else f"(negb {t})"
+            if ta == "num" and tb == "Q" and o in (ast.Eq, ast.NotEq):
+                t = f"(num_eqb {a} (Fin {b}))"
+                return t if o is ast.Eq else f"(negb {t})"
+            if ta == "num" and tb == "lit" and o is ast.Lt and b == "0":
+                return f"(num_lt0 {a})"       # Python float comparison on a parsed number (Model/Mol.v: nan compares false)
+            if ta == "num" and tb == "lit" and o is ast.Gt:
+                return f"(num_gt {a} ({b})%Q)"
             if "Z" in (ta, tb) and {ta, tb} <= {"Z", "lit"} and o in CMPZ:
                 return "(" + CMPZ[o].format(a=a, b=b) + ")%Z"
             if {ta, tb} <= {"Q", "lit"} and "Q" in (ta, tb) and o in CMPQ:
@@ -224,7 +246,8 @@ class Env:
 class Cut(ast.NodeTransformer):
     """replaces the decision expressions (If.test) and all messages by placeholders, records the expressions"""
 
-    def __init__(self, returns=False, values=()):
+    def __init__(self, returns=False, values=(), aug=False):
+        self.aug = aug
         self.tests = []
         self.returns = returns      # also cut the expressions of `return <expr>` (recorded in self.rets)
         self.rets = []
@@ -251,6 +274,12 @@ class Cut(ast.NodeTransformer):
     def visit_While(self, node):
         self.tests.append(node.test)
         return ast.While(test=ast.Name(id=f"TEST{len(self.tests) - 1}", ctx=ast.Load()), body=[self.visit(s) for s in node.body], orelse=[self.visit(s) for s in node.orelse])
+
+    def visit_AugAssign(self, node):
+        if self.aug and ast.unparse(node.target) in self.values and isinstance(node.op, ast.Add):
+            self.vals.append((ast.unparse(node.target) + " +=", node.value))
+            return ast.AugAssign(target=node.target, op=node.op, value=ast.Name(id=f"VAL{len(self.vals) - 1}", ctx=ast.Load()))
+        return node
 
     def visit_Raise(self, node):
         exc = node.exc
@@ -1225,8 +1254,8 @@ def translate_rgraph(molecule_py):
     return "\n".join(out) + "\n"
 
 
-def skeleton_v(fn, values):
-    c = Cut(values=values)
+def skeleton_v(fn, values, aug=False):
+    c = Cut(values=values, aug=aug)
     body = [c.visit(x) for x in fn.body]
     return "\n".join(ast.unparse(ast.fix_missing_locations(x)) for x in body if not isinstance(x, ast.Pass)), c.tests, c.vals
 
@@ -1749,6 +1778,391 @@ def translate_sysparse(system_py):
     return "\n".join(out) + "\n"
 
 
+MOLINIT_SKELETON = '''self._raw_text = VAL0
+self._elements = []
+stochastic_text = VAL1
+self.mixture = None
+if TEST0:
+    start = VAL2
+    end = VAL3
+    mixture_text = VAL4
+    end_text = VAL5
+    if TEST1:
+        raise RuntimeError
+    stochastic_text = VAL6
+    self.mixture = Mixture(mixture_text)
+res_id_counter = 0
+while TEST2:
+    pre_token = VAL7
+    pre_stochastic = None
+    if TEST3:
+        pre_stochastic = SmilesToken(pre_token, 0, res_id_prefix + res_id_counter)
+        res_id_counter += 1
+        if TEST4:
+            if TEST5:
+                other_bd = self._elements[-1].right_terminal
+            else:
+                other_bd = self._elements[-1].bond_descriptors[-1]
+            if TEST6:
+                found_compatible = False
+                for bd in pre_stochastic.bond_descriptors:
+                    if TEST7:
+                        if TEST8:
+                            found_compatible = True
+                    elif TEST9:
+                        found_compatible = True
+                if TEST10:
+                    raise RuntimeError
+            else:
+                bond_string = VAL8
+                pre_token = VAL9
+                pre_stochastic = SmilesToken(pre_token, 0, res_id_prefix + res_id_counter)
+                res_id_counter += 1
+    stochastic_text = VAL10
+    end_pos = VAL11
+    if TEST11:
+        raise RuntimeError
+    if TEST12:
+        end_pos = VAL12
+    stochastic = Stochastic(stochastic_text[:end_pos], res_id_prefix + res_id_counter)
+    res_id_counter += len(stochastic.residues)
+    if TEST13:
+        min_expected_bond_descriptors = 2
+        if TEST14:
+            min_expected_bond_descriptors = 1
+        if TEST15:
+            other_bd = stochastic.left_terminal
+            bond_text = VAL13
+            bond_text = VAL14
+            pre_token += bond_text
+            pre_stochastic = SmilesToken(pre_token, 0, res_id_prefix + res_id_counter)
+            res_id_counter += 1
+        self._elements.append(pre_stochastic)
+    self._elements.append(stochastic)
+    stochastic_text = VAL15
+if TEST16:
+    token = SmilesToken(stochastic_text, 0, res_id_prefix + res_id_counter)
+    if TEST17:
+        if TEST18:
+            bond_text = VAL16
+        else:
+            bond_text = VAL17
+        token = SmilesToken(bond_text + stochastic_text, 0, res_id_prefix + res_id_counter)
+    res_id_counter += 1
+    self._elements.append(token)'''
+
+MIXINIT_SKELETON = '''self._raw_text = raw_text
+if TEST0:
+    raise RuntimeError
+self._absolute_mass = None
+self._relative_mass = None
+self._system_mass = None
+if TEST1:
+    rel_mass = VAL0
+    if TEST2:
+        raise RuntimeError
+    self._relative_mass = float(rel_mass)
+else:
+    try:
+        abs_mass = VAL1
+    except ValueError:
+        warn
+    else:
+        if TEST3:
+            raise RuntimeError
+        self._absolute_mass = abs_mass'''
+
+MOL_VALUES = {"self._raw_text", "stochastic_text", "start", "end", "mixture_text", "end_text", "pre_token", "end_pos", "bond_text", "bond_string"}
+MOL_PINNED = {5: "isinstance(self._elements[-1], Stochastic)", 7: "isinstance(self._elements[-1], Stochastic)", 18: "isinstance(self._elements[-1], Stochastic)"}
+MOL_PINNED_VALUES = {1: "copy.copy(self._raw_text)", 8: "_create_compatible_bond_text(other_bd)", 13: "_create_compatible_bond_text(other_bd)",
+                     16: "_create_compatible_bond_text(self._elements[-1].right_terminal)", 17: "_create_compatible_bond_text(self._elements[-1].bond_descriptors[-1])"}
+
+
+def translate_molparse(molecule_py):
+    """molecule.py: Molecule.__init__; mixture.py: Mixture.__init__ -> Src/SrcMolParse.v"""
+    import os
+    mod = ast.parse(open(molecule_py).read())
+    fn = _method(_class(mod, "Molecule"), "__init__", [])
+    if [a.arg for a in fn.args.args] != ["self", "big_smiles_ext", "res_id_prefix"] or [ast.unparse(d) for d in fn.args.defaults] != ["0"]:
+        raise Unsupported("signature of Molecule.__init__")
+    sk, ts, vs = skeleton_v(fn, MOL_VALUES)
+    if not same_skeleton(sk, MOLINIT_SKELETON) or len(ts) != 19 or len(vs) != 18:
+        import difflib
+        d = [l for l in difflib.unified_diff(MOLINIT_SKELETON.split("\n"), sk.split("\n"), lineterm="", n=0) if not l.startswith(("---", "+++", "@@"))]
+        raise Unsupported("statement skeleton of Molecule.__init__ changed: " + " / ".join(d[:6]))
+    for k, text in MOL_PINNED.items():
+        if ast.dump(ts[k]) != ast.dump(ast.parse(text, mode="eval").body):
+            raise Unsupported(f"decision {k} of Molecule.__init__ changed")
+    for k, text in MOL_PINNED_VALUES.items():
+        if ast.dump(vs[k][1]) != ast.dump(ast.parse(text, mode="eval").body):
+            raise Unsupported(f"value {k} of Molecule.__init__ changed: {ast.unparse(vs[k][1])[:80]}")
+    env = Env({"start": ("start", "Z"), "end": ("stop", "Z"), "end_pos": ("ep", "Z"), "len(self._elements)": ("(Z.of_nat nel)", "Z"),
+               "len(pre_stochastic.bond_descriptors)": ("(Z.of_nat nb)", "Z"), "min_expected_bond_descriptors": ("(Z.of_nat minexp)", "Z"),
+               "len(token.bond_descriptors)": ("(Z.of_nat ntb)", "Z")},
+              {"big_smiles_ext": ("input", "str"), "stochastic_text": ("text", "str"), "end_text": ("et", "str"), "pre_token": ("pt", "str"), "bond_string": ("bs", "str"),
+               "bond_text": ("bt", "str"), "found_compatible": ("found", "bool"), "pre_stochastic": ("pre", "opttoken")},
+              {"stochastic_text[end_pos]": ("c", "char"), "bd.generate_string(False)": ("(print_descr fprint false bd)", "str"),
+               "other_bd.generate_string(False)": ("(print_descr fprint false other)", "str"), "bd.is_compatible(other_bd)": ("(is_compatible bd other)", "bool")})
+    def val(k, ty):
+        t, got = env.term(vs[k][1])
+        if got != ty:
+            raise Unsupported(f"value {k} of Molecule.__init__ has type {got}")
+        return t
+    T = {k: env.truth(ts[k]) for k in range(19) if k not in MOL_PINNED}
+    # Mixture.__init__
+    mmod = ast.parse(open(os.path.join(os.path.dirname(molecule_py), "mixture.py")).read())
+    mfn = _method(_class(mmod, "Mixture"), "__init__", [])
+    if [a.arg for a in mfn.args.args] != ["self", "raw_text"]:
+        raise Unsupported("signature of Mixture.__init__")
+    msk, mts, mvs = skeleton_v(mfn, {"rel_mass", "abs_mass"})
+    if not same_skeleton(msk, MIXINIT_SKELETON) or len(mts) != 4 or len(mvs) != 2:
+        raise Unsupported("statement skeleton of Mixture.__init__ changed: " + msk.replace("\n", " / ")[:300])
+    menv = Env({}, {"self._raw_text": ("raw", "str"), "rel_mass": ("r", "num"), "abs_mass": ("a", "num")}, {"self._raw_text[0]": ("c", "char")})
+    def fval(k):
+        v = mvs[k][1]
+        if not (isinstance(v, ast.Call) and isinstance(v.func, ast.Name) and v.func.id == "float" and len(v.args) == 1):
+            raise Unsupported("Mixture.__init__: a mass is not float(<text>)")
+        t, ty = menv.term(v.args[0])
+        if ty != "str":
+            raise Unsupported("Mixture.__init__: float of a non-string")
+        return t
+    out = [
+        "(* generated by harness/translate_sys.py from molecule.py (Molecule.__init__) and mixture.py (Mixture.__init__) -- do not edit *)",
+        "From Coq Require Import List ZArith QArith Ascii String Bool.",
+        "From GBS Require Import Model.PyStr Model.Num Model.Bond Model.Token Model.DistFam Src.SrcDist Model.Stoch Model.Mol Src.SrcBond.",
+        "Import ListNotations. Open Scope Z_scope.",
+        "(* input: big_smiles_ext; text: stochastic_text at that point; start / stop: the mixture specifier; pt: pre_token; ep: end_pos; c: text[end_pos];",
+        "   nel / nb / ntb / minexp: element and descriptor counts; bs / bt: connector descriptor texts; is_compatible is regenerated from bond.py *)",
+        f"Definition ml_raw (input : str) : str := {val(0, 'str')}.",
+        f"Definition ml_has_mix (text : str) : bool := {T[0]}.",
+        f"Definition ml_mix_start (text : str) : Z := {val(2, 'Z')}.",
+        f"Definition ml_mix_stop (text : str) (start : Z) : Z := {val(3, 'Z')}.",
+        f"Definition ml_mix_text (text : str) (start stop : Z) : str := {val(4, 'str')}.",
+        f"Definition ml_after_mix (text : str) (stop : Z) : str := {val(5, 'str')}.",
+        f"Definition ml_after_mix_nonempty (et : str) : bool := {T[1]}.",
+        f"Definition ml_before_mix (text : str) (start : Z) : str := {val(6, 'str')}.",
+        f"Definition ml_continues (text : str) : bool := {T[2]}.",
+        f"Definition ml_pre_token (text : str) : str := {val(7, 'str')}.",
+        f"Definition ml_has_pre (pt : str) : bool := {T[3]}.",
+        f"Definition ml_has_elements (nel : nat) : bool := {T[4]}.",
+        f"Definition ml_pre_has_descriptors (nb : nat) : bool := {T[6]}.",
+        f"Definition ml_same_text (fprint : num -> str) (bd other : descr) : bool := {T[8]}.",
+        f"Definition ml_compatible (bd other : descr) : bool := {T[9]}.",
+        f"Definition ml_none_found (found : bool) : bool := {T[10]}.",
+        f"Definition ml_prepend (bs pt : str) : str := {val(9, 'str')}.",
+        f"Definition ml_text1 (text : str) : str := {val(10, 'str')}.",
+        f"Definition ml_end_pos (text : str) : Z := {val(11, 'Z')}.",
+        f"Definition ml_end_negative (ep : Z) : bool := {T[11]}.",
+        f"Definition ml_dist_follows (text : str) (ep : Z) (c : ascii) : bool := {T[12]}.",
+        f"Definition ml_end_pos_dist (text : str) (ep : Z) : Z := {val(12, 'Z')}.",
+        f"Definition ml_pre_given (pre : option token) : bool := {T[13]}.",
+        f"Definition ml_first_element (nel : nat) : bool := {T[14]}.",
+        f"Definition ml_too_few (nb minexp : nat) : bool := {T[15]}.",
+        f"Definition ml_auto_descriptor (bt : str) : str := {val(14, 'str')}.",
+        f"Definition ml_rest (text : str) (ep : Z) : str := {val(15, 'str')}.",
+        f"Definition ml_trailing (text : str) : bool := {T[16]}.",
+        f"Definition ml_trailing_needs_descriptor (nel ntb : nat) : bool := {T[17]}.",
+        "(* Mixture.__init__ *)",
+        f"Definition mx_not_dot (c : ascii) : bool := {menv.truth(mts[0])}.",
+        f"Definition mx_is_percent (raw : str) : bool := {menv.truth(mts[1])}.",
+        f"Definition mx_percent_text (raw : str) : str := {fval(0)}.",
+        f"Definition mx_percent_bad (r : num) : bool := {menv.truth(mts[2])}.",
+        f"Definition mx_mass_text (raw : str) : str := {fval(1)}.",
+        f"Definition mx_mass_bad (a : num) : bool := {menv.truth(mts[3])}.",
+    ]
+    return "\n".join(out) + "\n"
+
+
+PRINT_DESCR_SKELETON = '''string = ''
+string += VAL0
+if TEST0:
+    string += VAL1
+    if TEST1:
+        string += VAL2
+    else:
+        for t in self.transitions:
+            string += VAL3
+        string = VAL4
+    string += VAL5
+string += VAL6
+return string.strip()'''
+
+COMPAT_TEXT_SKELETON = '''compatible_symbol = '$'
+if TEST0:
+    compatible_symbol = '<'
+if TEST1:
+    compatible_symbol = '>'
+bond_string = VAL0
+return bond_string'''
+
+
+def translate_descrprint(bond_py):
+    """bond.py: BondDescriptor.generate_string and _create_compatible_bond_text -> Src/SrcDescrPrint.v"""
+    mod = ast.parse(open(bond_py).read())
+    fn = _method(_class(mod, "BondDescriptor"), "generate_string", [])
+    if [a.arg for a in fn.args.args] != ["self", "extension"]:
+        raise Unsupported("signature of BondDescriptor.generate_string")
+    sk, ts, vs = skeleton_v(fn, {"string"}, aug=True)
+    if not same_skeleton(sk, PRINT_DESCR_SKELETON) or len(ts) != 2 or len(vs) != 7:
+        raise Unsupported("statement skeleton of BondDescriptor.generate_string changed: " + sk.replace("\n", " / ")[:300])
+    env = Env({}, {"extension": ("ext", "bool"), "self.transitions": ("(d_trans d)", "optlist"), "self.weight": ("(d_weight d)", "num"), "string": ("s", "str")},
+              {"{self.descriptor}": ("(d_sym d)", "str"), "{self.descriptor_id}": ("(id_str (d_id d))", "str"), "{self.weight}": ("(fprint (d_weight d))", "str"),
+               "{t}": ("(fprint t)", "str")})
+    def val(k):
+        t, ty = env.term(vs[k][1])
+        if ty != "str":
+            raise Unsupported(f"value {k} of generate_string has type {ty}")
+        return t
+    cfn = _module_fn(mod, "_create_compatible_bond_text")
+    if [a.arg for a in cfn.args.args] != ["bond"]:
+        raise Unsupported("signature of _create_compatible_bond_text")
+    csk, cts, cvs = skeleton_v(cfn, {"bond_string"})
+    if not same_skeleton(csk, COMPAT_TEXT_SKELETON) or len(cts) != 2 or len(cvs) != 1:
+        raise Unsupported("statement skeleton of _create_compatible_bond_text changed")
+    # str(bond) contains '<' / '>' iff the symbol is (ids and weights are numeric text): Model/Bond.v
+    cenv = Env({}, {}, {"'<' in str(bond)": ("(str_eqb (d_sym b) (lit \"<\"))", "bool"), "'>' in str(bond)": ("(str_eqb (d_sym b) (lit \">\"))", "bool"),
+                        "{bond.preceding_characters}": ("(d_pre b)", "str"), "{compatible_symbol}": ("sym", "str"), "{bond.descriptor_id}": ("(id_str (d_id b))", "str")})
+    ct, cty = cenv.term(cvs[0][1])
+    out = [
+        "(* generated by harness/translate_sys.py from bond.py (BondDescriptor.generate_string, _create_compatible_bond_text) -- do not edit *)",
+        "From Coq Require Import List ZArith QArith Ascii String Bool.",
+        "From GBS Require Import Model.PyStr Model.Num Model.Bond.",
+        "Import ListNotations.",
+        "Section SrcDescrPrint.",
+        "  Variable fprint : num -> str.     (* Python's formatting of a float inside an f-string: repr (oracle) *)",
+        f"  Definition pd_head (d : descr) : str := {val(0)}.",
+        f"  Definition pd_shows_weight (ext : bool) (d : descr) : bool := {env.truth(ts[0])}.",
+        f"  Definition pd_open_bar : str := {val(1)}.",
+        f"  Definition pd_single (d : descr) : bool := {env.truth(ts[1])}.",
+        f"  Definition pd_weight (d : descr) : str := {val(2)}.",
+        f"  Definition pd_item (t : num) : str := {val(3)}.",
+        f"  Definition pd_cut (s : str) : str := {val(4)}.",
+        f"  Definition pd_close_bar : str := {val(5)}.",
+        f"  Definition pd_close : str := {val(6)}.",
+        "End SrcDescrPrint.",
+        f"Definition ct_is_left (b : descr) : bool := {cenv.truth(cts[0])}.",
+        f"Definition ct_is_right (b : descr) : bool := {cenv.truth(cts[1])}.",
+        f"Definition ct_text (b : descr) (sym : str) : str := {ct}.",
+    ]
+    return "\n".join(out) + "\n"
+
+
+TOKEN_PRINT_SKELETON = '''string = ''
+for element in self.elements:
+    if TEST0:
+        string += VAL0
+    else:
+        string += VAL1
+return string.strip()'''
+
+STOCH_PRINT_SKELETON = '''string = '{'
+string += VAL0
+for token in self.repeat_tokens:
+    string += VAL1
+if TEST0:
+    string = VAL2
+if TEST1:
+    string += VAL3
+    for token in self.end_tokens:
+        string += VAL4
+    string = VAL5
+string += VAL6
+string += VAL7
+if TEST2:
+    string += VAL8
+return string.strip()'''
+
+MOL_PRINT_SKELETON = '''string = ''
+for ele in self._elements:
+    string += VAL0
+if TEST0:
+    string += VAL1
+return string'''
+
+SYS_PRINT_SKELETON = '''string = ''
+for mol in self._molecules:
+    string += VAL0
+return string'''
+
+MIX_PRINT_SKELETON = '''if TEST0:
+    if TEST1:
+        return RET0
+    return RET1
+return "."'''
+
+
+def translate_printers(token_py):
+    """generate_string of SmilesToken, Stochastic, Molecule, System, Mixture -> Src/SrcPrint.v"""
+    import os
+    d = os.path.dirname(token_py)
+    def gs(fname, cname):
+        fn = _method(_class(ast.parse(open(os.path.join(d, fname)).read()), cname), "generate_string", [])
+        if [a.arg for a in fn.args.args] != ["self", "extension"]:
+            raise Unsupported(f"signature of {cname}.generate_string")
+        return fn
+    def shaped(fn, skel, nt, nv, what):
+        sk, ts, vs = skeleton_v(fn, {"string"}, aug=True)
+        if not same_skeleton(sk, skel) or len(ts) != nt or len(vs) != nv:
+            raise Unsupported(f"statement skeleton of {what}.generate_string changed: " + sk.replace("\n", " / ")[:300])
+        return ts, vs
+    # token
+    ts, vs = shaped(gs("token.py", "SmilesToken"), TOKEN_PRINT_SKELETON, 1, 2, "SmilesToken")
+    if ast.unparse(ts[0]) != "isinstance(element, str)" or [ast.unparse(v[1]) for v in vs] != ["element", "element.generate_string(extension)"]:
+        raise Unsupported("SmilesToken.generate_string: element printing")
+    # stochastic object
+    ts, vs = shaped(gs("stochastic.py", "Stochastic"), STOCH_PRINT_SKELETON, 3, 9, "Stochastic")
+    env = Env({"len(self.repeat_tokens)": ("(Z.of_nat nrep)", "Z"), "len(self.end_tokens)": ("(Z.of_nat nend)", "Z")},
+              {"string": ("s", "str"), "self.distribution": ("dist", "optdist")},
+              {"self.left_terminal.generate_string(extension)": ("(pdescr left)", "str"), "self.right_terminal.generate_string(extension)": ("(pdescr right)", "str"),
+               "token.generate_string(extension)": ("(ptoken tok)", "str"), "self.distribution.generate_string(extension)": ("dtext", "str")})
+    def sval(k):
+        t, ty = env.term(vs[k][1])
+        if ty != "str":
+            raise Unsupported(f"Stochastic.generate_string value {k}")
+        return t
+    if ast.dump(vs[1][1]) != ast.dump(vs[4][1]) or ast.dump(vs[2][1]) != ast.dump(vs[5][1]):
+        raise Unsupported("Stochastic.generate_string: the two token lists are printed differently")
+    out = [
+        "(* generated by harness/translate_sys.py from token.py, stochastic.py, molecule.py, system.py, mixture.py (generate_string) -- do not edit *)",
+        "From Coq Require Import List ZArith QArith Ascii String Bool.",
+        "From GBS Require Import Model.PyStr Model.Num Model.Bond Model.Token.",
+        "Import ListNotations.",
+        "(* SmilesToken.generate_string: text elements as written, every other element by its own generate_string; stripped (skeleton checked) *)",
+        "Section SrcPrint.",
+        "  Variable pdescr : descr -> str.   (* BondDescriptor.generate_string(extension): Src/SrcDescrPrint.v *)",
+        "  Variable ptoken : token -> str.   (* SmilesToken.generate_string(extension) *)",
+        f"  Definition ps_left_text (left : descr) : str := {sval(0)}.",
+        f"  Definition ps_item (tok : token) : str := {sval(1)}.",
+        f"  Definition ps_has_rep (nrep : nat) : bool := {env.truth(ts[0])}.",
+        f"  Definition ps_cut (s : str) : str := {sval(2)}.",
+        f"  Definition ps_has_end (nend : nat) : bool := {env.truth(ts[1])}.",
+        f"  Definition ps_sep : str := {sval(3)}.",
+        f"  Definition ps_right_text (right : descr) : str := {sval(6)}.",
+        f"  Definition ps_close : str := {sval(7)}.",
+        f"  Definition ps_has_dist {{D}} (dist : option D) : bool := {env.truth(ts[2])}.",
+        f"  Definition ps_dist_text (dtext : str) : str := {sval(8)}.",
+        "End SrcPrint.",
+    ]
+    # molecule / system / mixture: compared as text
+    ts, vs = shaped(gs("molecule.py", "Molecule"), MOL_PRINT_SKELETON, 1, 2, "Molecule")
+    if ast.unparse(ts[0]) != "self.mixture" or [ast.unparse(v[1]) for v in vs] != ["ele.generate_string(extension)", "self.mixture.generate_string(extension)"]:
+        raise Unsupported("Molecule.generate_string")
+    ts, vs = shaped(gs("system.py", "System"), SYS_PRINT_SKELETON, 0, 1, "System")
+    if ast.unparse(vs[0][1]) != "mol.generate_string(extension)":
+        raise Unsupported("System.generate_string")
+    mfn = gs("mixture.py", "Mixture")
+    sk, mts, mrs = skeleton_r(mfn)
+    if not same_skeleton(sk, MIX_PRINT_SKELETON) or [ast.unparse(t) for t in mts] != ["extension", "self.absolute_mass is None"]:
+        raise Unsupported("Mixture.generate_string")
+    menv = Env({}, {}, {"{self.relative_mass}": ("(fprint rel)", "str"), "{self.absolute_mass}": ("(fprint mass)", "str")})
+    out += [
+        "(* Mixture.generate_string: the percentage if no absolute mass is known, else the absolute mass *)",
+        f"Definition mx_print_rel (fprint : num -> str) (rel : num) : str := {menv.term(mrs[0])[0]}.",
+        f"Definition mx_print_abs (fprint : num -> str) (mass : num) : str := {menv.term(mrs[1])[0]}.",
+    ]
+    return "\n".join(out) + "\n"
+
+
 def _power_expr(e):
     """arithmetic over a : Q and k : nat with integer powers (a ** 2, x ** (k - 1))"""
     if isinstance(e, ast.Name) and e.id == "a":
@@ -1789,3 +2203,6 @@ if __name__ == "__main__":
     print(translate_token(base + "/token.py"))
     print(translate_stochparse(base + "/stochastic.py"))
     print(translate_sysparse(base + "/system.py"))
+    print(translate_molparse(base + "/molecule.py"))
+    print(translate_descrprint(base + "/bond.py"))
+    print(translate_printers(base + "/token.py"))
